@@ -405,6 +405,10 @@ def _use(run, P):
     if tests and wraps:
         from .util import path_conditions, _strip_not
         t, _pol = _strip_not(tests[0].test)
+        whole = t
+        if isinstance(t, ast.BoolOp) and isinstance(t.op, ast.Or):
+            # a comment, or a line short enough to need no wrapping: passed through as it is
+            t = next((v_ for v_ in t.values if "startswith('!')" in ast.unparse(v_)), t)
         recv = t.func.value if isinstance(t, ast.Call) and isinstance(t.func, ast.Attribute) else None
         arg = wraps[0].args[0] if wraps[0].args else None
         # the wrapping call runs only when the comment test fails, however that is laid out
@@ -415,7 +419,7 @@ def _use(run, P):
             if isinstance(s_, (ast.If, ast.Try, ast.With, ast.FunctionDef)):
                 return False
             return any(x is wraps[0] for x in ast.walk(s_))
-        guarded = any((norm(t), False) in path_conditions(f.node, s_)
+        guarded = any((norm(whole), False) in path_conditions(f.node, s_)
                       for s_ in ast.walk(f.node) if isinstance(s_, ast.stmt) and holds(s_))
         ok = recv is not None and arg is not None and norm(recv) == norm(arg) and guarded
     run.ob("C20.use", f, tests[0] if tests else f.node, ok,
